@@ -583,21 +583,28 @@ def minimise(m, why, rounds=10):
     return m
 
 
-def report_trace_violations(failed, vd, label):
-    """failed: list of (event, verdict); the smallest ones are minimised first."""
-    failed = sorted(failed, key=lambda ev_v: size_of(ev_v[0]['mol']))
-    for n, (e, v) in enumerate(failed):
-        m = e['mol']
-        if n < 3 and not e.get('err'):
-            try:
-                m = minimise(m, v)
-            except tlc.MachineryError:
-                pass
-        sc = {'mol': m, 'why': v, 'origin': e.get('origin'), 'original_size': [len(e['mol']['nodes']), len(e['mol']['inter'])]}
-        if e.get('err'):
-            vd.violation('writer-raised', dict(sc, detail=e['err']), '%s: real writer raised %s' % (label, e['err']))
-        else:
-            vd.violation('roundtrip', sc, '%s: TLC verdict on the records of the real text: %s' % (label, v))
+def report_trace_violations(failed, vd, label, shrink=True):
+    """failed: list of (event, verdict).  Per verdict the two smallest scenarios are written out; with `shrink` the
+    smallest one of each verdict is first minimised (the TAB domain is exhaustive, its smallest failing member is
+    already minimal)."""
+    per_why = {}
+    for e, v in sorted(failed, key=lambda ev_v: size_of(ev_v[0]['mol'])):
+        per_why.setdefault(v, []).append(e)
+    for n, (v, lst) in enumerate(per_why.items()):
+        for k, e in enumerate(lst[:2]):
+            m = e['mol']
+            if shrink and k == 0 and n < 3 and not e.get('err'):
+                try:
+                    m = minimise(m, v, rounds=8)
+                except tlc.MachineryError:
+                    pass
+            sc = {'mol': m, 'why': v, 'origin': e.get('origin', e.get('family')),
+                  'original_size': [len(e['mol']['nodes']), len(e['mol']['inter'])]}
+            more = '(%d recorded runs with this verdict)' % len(lst)
+            if e.get('err'):
+                vd.violation('writer-raised', dict(sc, detail=e['err']), '%s: real writer raised %s %s' % (label, e['err'], more))
+            else:
+                vd.violation('roundtrip', sc, '%s: TLC verdict on the records of the real text: %s %s' % (label, v, more))
 
 
 # ----------------------------------------------------------------------------------------------------------------
@@ -641,7 +648,7 @@ def run(tier, seed, ev, vd):
                 print('NOTE property=C02 %d texts round-trip but are not what ItpWrite!Write produces (model of the '
                       'algorithm out of date), first: %s' % (ev.extra['write_model_deviations'],
                                                              json.dumps(deviants[0]['mol'])[:300]))
-            report_trace_violations(failed, vd, 'TAB replay')
+            report_trace_violations(failed, vd, 'TAB replay', shrink=False)
 
         # code -> spec
         nhist = 1600 if quick else 24000
